@@ -342,6 +342,37 @@ PROPS["C05"] = {
                          "totality of the CBOR / JSON / bincode / hex paths: not modelled (fuzzed)"],
 }
 
+PROPS["C11"] = {
+    "lean_modules": ["MithrilModel.Properties.C11"],
+    "theorems": ["C11.C11_set_sound", "C11.C11_set_sound_v2", "C11.C11_empty_rejected", "C11.C11_roots_must_agree",
+                 "C11.C11_leaf_injective", "C11.C11_leaf_slash_note", "C11.C11_stake_leaf_counterexample", "C11.C11_stake_partial",
+                 "Proofs.verifyLegacy_sound", "Proofs.rootsLoop_sound", "C09.C09_map_sound", "C04.C04_pm_single_value"],
+    "level_text": "Acceptance of a legacy or v2 proofs response is proved in Lean to imply: at least one part, every part's nested proof "
+                  "verifies, all parts prove under the single returned root, every reported item's leaf is contained in its proof; with "
+                  "C09_map_sound contained non-merge values are committed leaves of that root; the leaf encoders are injective on the honest "
+                  "grammar; an altered root / block number / offset changes the recomputed digest (C04). The verifier models are compared "
+                  "(verdict class and returned root) with the real message verifiers on honest responses of a real MKMap of block-range trees "
+                  "and on ~25 kinds of tampering, the stake-distribution root with the Lean MMR builder (Blake2s), and membership, message "
+                  "binding and distribution exactness are evaluated on the real results. The non-injective stake leaf is a known finding.",
+    "level_note": "Builds on the C09 models (ckb MMR transliteration, nested map proofs) and the C04 digest model. The forged-item classes that "
+                  "come from the missing leaf/node separation are C09's known findings and are exercised there (c09b). The aggregator-side "
+                  "provers (prover.rs, prover_legacy.rs) are not in this harness: honest proofs come from the same MKMap::compute_proof they call.",
+    "harness": [("harness", "c11")],
+    "anchors": ["mithril-common/src/messages/cardano_transactions_proof.rs", "mithril-common/src/messages/proof_v2/cardano_transactions_proof.rs",
+                "mithril-common/src/messages/proof_v2/cardano_blocks_proof.rs", "mithril-common/src/messages/proof_v2/verify.rs",
+                "mithril-common/src/entities/mk_set_proof.rs", "mithril-common/src/entities/cardano_transactions_set_proof.rs",
+                "mithril-common/src/entities/cardano_block_transaction_mktree_node.rs", "mithril-common/src/signable_builder/cardano_stake_distribution.rs",
+                "mithril-client/src/message.rs"],
+    "rule": "world = chain of 1-50 (120) blocks with 0-3 transactions each, legacy map (transaction hashes) and v2 map (Block/.., Tx/.. leaves) by "
+            "block range; cases = honest / tampered legacy responses of 1-3 parts, honest / tampered v2 transaction and block responses, a "
+            "stake distribution of 1-50 pools; all non-trivial; distinct request lines",
+    "trivial_tags": [],
+    "trusted_base": ["rustc/cargo; harness bin c11; serde_json, bincode (proof encodings)"],
+    "assumptions": ["Blake2s-256 collision resistance enters through C09's hypotheses"],
+    "goals_not_proved": ["C11_message_binding for messages whose key SET differs (C04_pm_digest_injective): not proved",
+                         "exactness of the verified stake distribution is FALSE in general (C11_stake_leaf_counterexample): known finding C11-stake-leaf; C11_stake_partial is the proved part"],
+}
+
 
 # property configurations contributed as separate files: props.d/Cxx.py defines `CONFIG = {...}`
 import glob as _glob, os as _os, importlib.util as _ilu
